@@ -109,9 +109,16 @@ class World(object):
             if shared_yields:
                 sched.yield_point(('E', ''))
             if failing[0]:
+                # the failure strikes LATE in the real build (a wsdl_document_built listener that raises once): whatever the
+                # failed attempt left behind in the Wsdl11 object is there when the next requester builds again
                 failing[0] = False
-                world.record('E')
-                raise RuntimeError('injected build failure')
+                armed = [True]
+
+                def boom(doc):
+                    if armed[0]:
+                        armed[0] = False
+                        raise RuntimeError('injected build failure')
+                w11.event_manager.add_listener('wsdl_document_built', boom)
             try:
                 return ob(url)
             finally:
